@@ -567,12 +567,98 @@ theorem parseLink_ok (cfg : MdCfg) {n d mx : Nat} (hd : d ≤ mx) (R : Rec) (hR 
 
 /-! ### dispatch, the scanner loop, induction on the nesting budget -/
 
-/-- the inline rules of the plugins (`Mistune.Model.InlinePlugins`) -/
-def pluginInlineNames : List String :=
-  ["strikethrough", "mark", "insert", "superscript", "subscript", "url_link", "inline_math", "text", "ruby",
-   "inline_spoiler"]
+/-! ### plugin handlers: formatting, url, math, speedup -/
 
-/-- no plugin inline rule is registered (decidable) -/
+def fmtTys : List String := ["strikethrough", "mark", "insert", "superscript", "subscript", "inline_spoiler"]
+
+theorem wfTy_fmt (rec : List Json → TokCtx → Nat → Bool) (ty : String) (hty : ty ∈ fmtTys)
+    (cs : List Json) (d mx : Nat) (hd : d ≤ mx) (hrec : rec cs .inline d = true) :
+    wfTy rec ty none (none : Option Json) (some (.arr cs)) none .inline d mx = true := by
+  have h0 : attrsOkB none = true := rfl
+  simp only [fmtTys, List.mem_cons, List.not_mem_nil, or_false] at hty
+  rcases hty with e | e | e | e | e | e <;> subst e <;> wf_simp
+
+theorem ix_fmt (k : Nat) (ty : String) (hty : ty ∈ fmtTys) (cs : List Json) (d mx : Nat) (hd : d ≤ mx)
+    (h : ixSeq (k + 1) cs d mx = true) : ixSeq (k + 2) [tok ty [("children", .arr cs)]] d mx = true := by
+  simp only [ixSeq, Bool.and_eq_true] at h
+  have hw : wfSeq (k + 2) [tok ty [("children", .arr cs)]] .inline d mx = true := by
+    rw [tok, wfSeq_single_view]
+    simp [Json.get?, List.lookup, Json.s, wfView]
+    exact wfTy_fmt (fun cs c d' => wfSeq (k + 1) cs c d' mx) _ hty cs d mx hd h.1
+  have hc : coreTys.contains ty = true := by
+    simp only [fmtTys, List.mem_cons, List.not_mem_nil, or_false] at hty
+    rcases hty with e | e | e | e | e | e <;> subst e <;> decide
+  simp only [ixSeq, hw, Bool.true_and, shpAll, List.all_cons, List.all_nil, Bool.and_true]
+  exact shp_tok_children k _ cs hc h.2
+
+theorem parseToEnd_ok {n d mx : Nat} (hd : d ≤ mx) (R : Rec) (hR : RecOk n d mx R) (ty : String) (hty : ty ∈ fmtTys)
+    (endPattern : Rx) (m : RxMatch) (st : InlineState) (h : IOk (n + 2) d mx st) :
+    Sat (HPost (n + 2) d mx) (parseToEnd R ty endPattern m st) := by
+  unfold parseToEnd
+  extract_lets pos
+  split
+  · exact Sat.pure h
+  · extract_lets endPos text newState
+    unfold renderChildren
+    refine Sat.bind (renderIn_ok R hR _ st rfl rfl h) ?_
+    rintro ⟨children, st2⟩ ⟨h1, h2⟩
+    exact Sat.pure (h2.append (ixSeq_mono _ _ _ _ (ix_fmt n ty hty _ d mx hd h1)))
+
+theorem parseScript_ok {n d mx : Nat} (hd : d ≤ mx) (R : Rec) (hR : RecOk n d mx R) (ty : String) (hty : ty ∈ fmtTys)
+    (m : RxMatch) (st : InlineState) (h : IOk (n + 2) d mx st) :
+    Sat (HPost (n + 2) d mx) (parseScript R ty m st) := by
+  unfold parseScript
+  extract_lets text newState
+  unfold renderChildren
+  refine Sat.bind (renderIn_ok R hR _ st rfl rfl h) ?_
+  rintro ⟨children, st2⟩ ⟨h1, h2⟩
+  exact Sat.pure (h2.append (ixSeq_mono _ _ _ _ (ix_fmt n ty hty _ d mx hd h1)))
+
+theorem parseInlineSpoiler_ok (cfg : MdCfg) {n d mx : Nat} (hd : d ≤ mx) (R : Rec) (hR : RecOk n d mx R)
+    (m : RxMatch) (st : InlineState) (h : IOk (n + 2) d mx st) :
+    Sat (HPost (n + 2) d mx) (parseInlineSpoiler cfg R m st) := by
+  unfold parseInlineSpoiler
+  extract_lets text newState
+  unfold renderChildren
+  refine Sat.bind (renderIn_ok R hR _ st rfl rfl h) ?_
+  rintro ⟨children, st2⟩ ⟨h1, h2⟩
+  exact Sat.pure (h2.append (ixSeq_mono _ _ _ _ (ix_fmt n _ (by decide) _ d mx hd h1)))
+
+theorem parseUrlLink_ok (cfg : MdCfg) (hna : (cfg.blockSpec.lookup "ref_abbr").isSome = false) (n d mx : Nat)
+    (hd : d ≤ mx) (m : RxMatch) (st : InlineState) (h : IOk (n + 1) d mx st) :
+    Sat (HPost (n + 1) d mx) (parseUrlLink cfg m st) := by
+  unfold parseUrlLink
+  extract_lets text pos
+  split
+  · refine Sat.bind (processTextC_ok cfg hna _ _ _ hd _ _ h) (fun a ha => ?_)
+    exact Sat.pure ha
+  · refine Sat.bind (Sat.triv _) (fun u _ => ?_)
+    refine Sat.pure (h.append ?_)
+    exact ix_link n [textTok text] _ d mx hd ⟨⟨_, rfl⟩, ⟨u, by simp [Json.get?, List.lookup]⟩, by simp [linkKeys]⟩
+      (ix_text _ _ _ _ hd)
+
+theorem ix_inline_math (k : Nat) (raw : Str) (d mx : Nat) (hd : d ≤ mx) :
+    ixSeq (k + 1) [tok "inline_math" [("raw", .str raw)]] d mx = true := by
+  have hw : wfSeq (k + 1) [tok "inline_math" [("raw", .str raw)]] .inline d mx = true := by inl_lit
+  simp only [ixSeq, hw, Bool.true_and]; shp_lit
+
+theorem parseInlineMath_ok (cfg : MdCfg) (n d mx : Nat) (hd : d ≤ mx) (m : RxMatch) (st : InlineState)
+    (h : IOk n d mx st) : Sat (HPost n d mx) (parseInlineMath cfg m st) :=
+  Sat.ok (h.append (ix_inline_math _ _ _ _ hd))
+
+theorem parseText_ok (cfg : MdCfg) (hna : (cfg.blockSpec.lookup "ref_abbr").isSome = false) (n d mx : Nat)
+    (hd : d ≤ mx) (m : RxMatch) (st : InlineState) (h : IOk n d mx st) :
+    Sat (HPost n d mx) (parseText cfg m st) := by
+  unfold parseText
+  extract_lets text text2
+  refine Sat.bind (processTextC_ok cfg hna _ _ _ hd _ _ h) (fun a ha => ?_)
+  exact Sat.pure ha
+
+/-- the inline plugin rules whose handlers are NOT covered (`ruby`) -/
+def pluginInlineNames : List String := ["ruby"]
+
+/-- no uncovered plugin inline rule is registered (decidable).  Covered plugin rules: `strikethrough`, `mark`,
+`insert`, `superscript`, `subscript`, `url_link`, `inline_math`, `text` (speedup), `inline_spoiler`. -/
 def noInlinePlugins (cfg : MdCfg) : Bool := pluginInlineNames.all (fun n => !cfg.inlineRules.contains n)
 
 theorem dead_rule (cfg : MdCfg) (hpl : noInlinePlugins cfg = true) (n : String) (hn : n ∈ pluginInlineNames)
@@ -599,6 +685,16 @@ theorem parseMethod_ok (cfg : MdCfg) (hna : (cfg.blockSpec.lookup "ref_abbr").is
     · exact parseLinebreak_ok _ _ _ hd m st h
     · exact parseSoftbreak_ok _ _ _ hd m st h
     · exact parseInlineFootnote_ok cfg _ _ _ hd m st h
+    · exact parseToEnd_ok hd R hR _ (by decide) _ m st h
+    · exact parseToEnd_ok hd R hR _ (by decide) _ m st h
+    · exact parseToEnd_ok hd R hR _ (by decide) _ m st h
+    · exact parseScript_ok hd R hR _ (by decide) m st h
+    · exact parseScript_ok hd R hR _ (by decide) m st h
+    · exact parseUrlLink_ok cfg hna _ _ _ hd m st h
+    · exact parseInlineMath_ok cfg _ _ _ hd m st h
+    · exact parseText_ok cfg hna _ _ _ hd m st h
+    · rename_i hc; exact (dead_rule cfg hpl _ (by decide) hc).elim
+    · exact parseInlineSpoiler_ok cfg hd R hR m st h
     all_goals first
       | exact Sat.err
       | (rename_i hc; exact (dead_rule cfg hpl _ (by decide) hc).elim)
